@@ -376,6 +376,10 @@ def accept(seed, n=30):
             params.append(f"R:T1:i:{rq2}")
         for _ in range(r.choice([1, 1, 2, 2, 2, 3, 4])):
             params.append("F:" + r.choice(fam))
+        if r.random() < 0.15:
+            fs = [p for p in params if p.startswith("F:")]
+            if fs:
+                params.append(r.choice(fs))          # the very same access expression twice
         name = f"a{i}"
         body = ",".join(f"iter:{j}" for j, p in enumerate(params) if p.startswith("F:"))
         ops.append(f"addh name={name} prio=m params={';'.join(params)} body={body}")
@@ -513,6 +517,13 @@ def priorities(seed):
             taker = r.random() < 0.08
             recv = f"R:{ev}:{'m' if taker else 'i'}" + (":" + r.choice(["()", "E", "?r0"]) if ev == "T0" else "")
             ops.append(f"addh name={name} prio={prio} params={recv} body={'take' if taker else ''}")
+        if r.random() < 0.12:
+            # ordinary function handlers through the wrapper glue; re-adding a function returns the existing handler
+            ops.append(f"addfn {r.choice(['fn0', 'fn1', 'fn2', 'fn3'])} {r.choice(['plain', 'high', 'low', 'notid'])}")
+        if r.random() < 0.05:
+            ops.append(f"rmh {r.choice(['fn0', 'fn1', 'fn2', 'fn3'])}")
+        if r.random() < 0.15:
+            ops.append("send G1")
         if timing == 1 and step == 2:
             make_target()
         if r.random() < 0.5 and ctx.nspawn:
@@ -555,6 +566,8 @@ def cascade(seed):
             ops.append(f"rmh {r.choice(ctx.names)}")
         elif x < 0.5:
             ops.append(f"rmev {r.choice(USER_G + USER_T + ['Despawn', 'InsK0', 'RemK1', 'Spawn'])}")
+        elif x < 0.55:
+            ops.append(f"addfn {r.choice(['fn0', 'fn1', 'fn2', 'fn3'])} {r.choice(['plain', 'high', 'low', 'notid'])}")
         elif x < 0.6:
             ops.append(rand_handler(ctx, allow_panic=0, tid=(r.randrange(3) if r.random() < 0.3 else None)))
         elif x < 0.7:
